@@ -57,6 +57,16 @@ CHECKS = {
             "OFFSET without LIMIT must be rejected.",
             "ties arbitrary, nulls first or last accepted; scripted clock (hook) makes core timestamps distinct",
             "DESIGN.md §4 C10"),
+    "C01": ("fault_enumeration",
+            "runtime monitoring with crash injection: named step points x generated histories, restart on the same directories, client-boundary oracle",
+            "Six history templates (auto-flush only, manual FLUSH, empty FLUSH, mid-history restart, compaction, compaction+restart) are "
+            "instantiated per seed/configuration; a dry run records which of the ~60 named step points (WAL append/rotation, memtable rotation, "
+            "segment write, index replace, publication, passive release, WAL cleanup, compaction write/hand-over/reclaim) fire; the history "
+            "is re-run once per (point, first/last hit; thorough: every hit up to 40) with _exit at that point, plus SIGKILL between commands; "
+            "after restart QUERY/REPLAY/COUNT are checked against the applied/open sets, again after FLUSH+compaction and after a clean restart.",
+            "applied = acked + completed mailbox/WAL-drained barrier; crash = process death (no power-loss model); losses are attributed "
+            "observationally (was the WAL line ever visible / still on disk at the crash) so that listed findings do not hide other losses",
+            "DESIGN.md §4 C01"),
 }
 
 PENDING_REASON = "check not built yet in this session (see DESIGN.md §10 for the order); no claim is made"
